@@ -33,6 +33,12 @@ def cases(tier, seed):
     for i, cd in enumerate(gen.template_family()):
         if i % (4 if tier == "quick" else 1) == 0:
             yield {"c": cd, "A": {}, "approx": False}
+    # many startpoints (the DIMACS sampling set spans several lines / more than a machine word of small tricks)
+    for w, ty, gv in ((10, "and", True), (11, "or", False), (10, "xor", True)):
+        # 2 of the w startpoints feed the gate, the others are free: the projected count 2^(w-2) (xor: 2^(w-1)) depends
+        # on every startpoint being in the sampling set
+        nodes = [[f"i{k}", "input", False] for k in range(w)] + [["g", ty, True]]
+        yield {"c": {"name": "wide", "nodes": nodes, "edges": [["i0", "g"], ["i1", "g"]], "bbs": {}}, "A": {"g": gv}, "approx": True, "export_only": True}
     # zero startpoints
     yield {"c": {"name": "k", "nodes": [["k0", "0", False], ["k1", "1", False], ["g", "and", True]],
                  "edges": [["k0", "g"], ["k1", "g"]], "bbs": {}}, "A": {}, "approx": True}
@@ -68,7 +74,8 @@ def run_case(case):
     except oracle.OracleError:
         return {"nontrivial": False, "failures": []}
     try:
-        got = cg.sat.model_count(c, dict(A))
+        # (enumeration by blocking clauses with the pure-Python solver stand-in: skipped for the wide export-only cases)
+        got = want if case.get("export_only") else cg.sat.model_count(c, dict(A))
         if got != want:
             fails.append({"kind": "model_count-wrong", "msg": f"model_count={got} oracle={want} A={A}"})
     except Exception as ex:
